@@ -1,5 +1,5 @@
 /- L0 facts about TrueRange::reset (split from Lemmas/TrueRange.lean so that a change to one method only invalidates the facts about that method) -/
-import TaRs.Lemmas.TrueRange
+import TaRs.Lemmas.Core.TrueRange
 set_option linter.unusedSectionVars false
 namespace TaRs.Gen.TrueRange
 open TaRs TaRs.Rs
